@@ -149,7 +149,12 @@ theorem attr_step {d : Disk} (inv : Inv d) {p : Bytes} (a : RootArg p) (set clea
         rw [hao]
         exact hnl
       refine ⟨h1.symm, ?_, R1.flatten, R2.flatten, rec, hv, hrp, hracc.2, hvol'⟩
-      refine { lf := inv.lf, geo := g', coh := ⟨f, c'⟩, root := ?_, read := ⟨_, hread', hwf', hnl'⟩ }
+      have htail : TailZero (dirOfBytes (rootBuf (rootWrite d E1.length (attrEntry e set clear)))) := by
+        rw [hE']
+        have := inv.tail
+        rw [hE] at this
+        exact tailZero_replace this hE1 hshown'.1.1
+      refine { lf := inv.lf, geo := g', coh := ⟨f, c'⟩, root := ?_, tail := htail, read := ⟨_, hread', hwf', hnl'⟩ }
       -- the root directory is still well named
       intro x hx hx0 hx5 hxl
       rw [hE'] at hx
@@ -169,7 +174,7 @@ theorem attr_step {d : Disk} (inv : Inv d) {p : Bytes} (a : RootArg p) (set clea
         · -- not a long-name part: bit 8 is clear
           have := hshown'.2.2.2.1
           omega
-        · obtain ⟨nm', ty', n1, n2, n3⟩ := hgood
-          exact ⟨nm', ty', by rw [fileNameToSplit_congr q2]; exact n1, by rw [entName_congr q2]; exact n2, n3⟩
+        · obtain ⟨nm', ty', n1, n2, n3, n4⟩ := hgood
+          exact ⟨nm', ty', by rw [fileNameToSplit_congr q2]; exact n1, by rw [entName_congr q2]; exact n2, n3, n4⟩
 
 end A2Verif.FsFat
